@@ -31,6 +31,10 @@ def factorize_arrow_arr(
     elif isinstance(arr, pa.ChunkedArray):
         arr = arr.combine_chunks()
 
+    if pa.types.is_null(arr.type):
+        # nothing but nulls: every row has the null code and there is no label
+        return np.full(len(arr), -1, dtype=np.int64), pd.Index([], name=name)
+
     arr = arr.dictionary_encode()
     if isinstance(arr, pa.ChunkedArray):
         arr = arr.combine_chunks()
@@ -165,6 +169,9 @@ def monotonic_factorization(arr: ArrayType1D) -> Tuple[int, np.ndarray, pd.Index
     if total_len == 0:
         return 0, np.empty(0, dtype=np.uint32), pd.Index([], dtype=pd_type)
     cutoff, codes, labels = _monotonic_factorization(arr_list, total_len)
+    if isinstance(pd_type, pd.ArrowDtype) and pa.types.is_null(pd_type.pyarrow_dtype):
+        # keys of arrow type null were converted to an all-NaN float array
+        pd_type = labels.dtype
     # Convert labels to pd.Index with proper dtype handling
     if pd_type.kind == "M":
         labels = pd.Index(labels.view(int), dtype=pd_type, copy=False)
